@@ -295,8 +295,13 @@ def check(run: lib.Run, audit: dict) -> int:
     run.obligation("C14_locks: LockFreeWhileBlocking on every traced reloader scenario", ok, detail if not ok else "discharged")
     run.extra["traced_scenarios"] = {k: v["progs"] for k, v in progs.items()} if isinstance(progs, dict) and "extraction_failed" not in progs else progs
     blocking_entry_points(run)
-    flavours_and_mutation(run, audit)
-    concurrency(run)
+    if any(f.get("observed") == "did not return within the watchdog" for f in run.spec_failures):
+        # an entry point hung: its threads are still parked inside the engine (possibly holding a shared helper loop or a lock), so
+        # further in-process evaluations could block for ever — the hang is the finding; report it now
+        run.notes.append("an entry point did not return: flavour / mutation / concurrency parts skipped (process state is no longer trustworthy)")
+    else:
+        flavours_and_mutation(run, audit)
+        concurrency(run)
     violations = []
     if run.spec_failures:
         path = run.write_replay("spec", {"what": "C14 violated", "case": run.spec_failures[0], "count": len(run.spec_failures)})
